@@ -119,9 +119,9 @@ static void exec_c02(const void *k, res_t *r, const runcfg_t *cfg) {
 
 static void g_init(const runcfg_t *cfg) { (void)cfg; gh_install(); }
 
-const module_t mod_C01 = {"C01", sizeof(gcase_t), 1, {400000, 4000000}, g_init, gen_c01, exec_c01, gc_describe,
+const module_t mod_C01 = {"C01", sizeof(gcase_t), 1, {3000000, 40000000}, g_init, gen_c01, exec_c01, gc_describe,
                           "generic rows (COPY CAT MEMCPY FILL INPLACE QUERY): truthful size declarations, RO guard pages + canaries; "
                           "non-trivial = dest non-NULL, dmax>0 within limits and the row writes dest; distinct by decoded arguments minus content seed"};
-const module_t mod_C02 = {"C02", sizeof(gcase_t), 1, {400000, 4000000}, g_init, gen_c02, exec_c02, gc_describe,
+const module_t mod_C02 = {"C02", sizeof(gcase_t), 1, {3000000, 40000000}, g_init, gen_c02, exec_c02, gc_describe,
                           "generic rows: PROT_NONE guard flush after/before every declared extent; non-trivial = scanned operand non-NULL, "
                           "declared size >= 1, sizes within limits; distinct by decoded arguments minus content seed"};
